@@ -82,6 +82,7 @@ def parseOpnd (s : String) : Option Opnd :=
   let s := trim s
   if s.startsWith "%" then (.loc ·) <$> (s.drop 1).toString.toNat?
   else if s.startsWith "n" then (.outer ·) <$> (s.drop 1).toString.toNat?
+  else if s.startsWith "#" then (.abs ·) <$> (s.drop 1).toString.toNat?
   else none
 
 /-- values: integers, `()`, `(a,b)` of integers, `{k:v,…}` -/
@@ -151,7 +152,7 @@ def parseAlt (s : String) : Option Template := do
 
 inductive Action where
   | create (i : Instr)
-  | observe (n : Nat)
+  | observe (n : Opnd)
   | cloneObs (o : Nat)
   | dropObs (o : Nat)
   | disallow (o : Nat)
@@ -180,7 +181,7 @@ deriving Repr, Inhabited
 
 def parseAction (toks : List String) : Option Action :=
   match toks with
-  | ["observe", n] => (.observe ·) <$> parseIdx "n" n
+  | ["observe", n] => (.observe ·) <$> parseOpnd n
   | ["cloneobs", o] => (.cloneObs ·) <$> parseIdx "o" o
   | ["dropobs", o] => (.dropObs ·) <$> parseIdx "o" o
   | ["disallow", o] => (.disallow ·) <$> parseIdx "o" o
@@ -201,7 +202,7 @@ def parseAction (toks : List String) : Option Action :=
 
 def parseLine (h : History) (line : String) : History :=
   let line := trim line
-  if line.isEmpty || line.startsWith "#" then h
+  if line.isEmpty || line.startsWith "# " || line == "#" then h
   else
     let toks := words line
     let bad := { h with actions := h.actions ++ [.bad line] }
